@@ -40,6 +40,11 @@ type C20Case struct {
 	// it), every setting overwritten, and the context comes from the copy's NeatContext(); "nested" = the context handed to
 	// neat.NewContext already carries other options
 	CtxKind string `json:"context_kind,omitempty"` // pre-sized record longer than the configured number of trials (an experiment value used before with more runs)
+	// ObserverByValue: the observer is a field-less struct handed over by value (a stateless logging observer), not a pointer
+	ObserverByValue bool `json:"observer_by_value,omitempty"`
+	// MaxFitnessScore of the experiment value (a scale for the efficiency score, not a stopping rule); the evaluation's
+	// fitness values are 1..11
+	MaxFitnessScore float64    `json:"max_fitness_score,omitempty"`
 	Parallel    bool       `json:"parallel_executor"`
 	PopSize     int        `json:"pop_size"`
 	Seed        int64      `json:"seed"`
@@ -51,6 +56,10 @@ func GenC20() *rapid.Generator[C20Case] {
 		c := C20Case{Genome: gg.Draw(t, "genome"), Trials: rapid.IntRange(1, 5).Draw(t, "trials"), Generations: rapid.IntRange(1, 8).Draw(t, "generations"),
 			Observer: rapid.IntRange(0, 3).Draw(t, "observer") != 0, PreSized: rapid.Bool().Draw(t, "presized"), Parallel: rapid.IntRange(0, 3).Draw(t, "parallel") == 0,
 			PopSize: rapid.IntRange(3, 8).Draw(t, "pop size"), Seed: int64(rapid.IntRange(0, 1<<30).Draw(t, "seed"))}
+		c.ObserverByValue = c.Observer && rapid.IntRange(0, 3).Draw(t, "observer by value") == 0
+		if rapid.IntRange(0, 3).Draw(t, "max fitness score") == 0 {
+			c.MaxFitnessScore = float64(rapid.IntRange(1, 12).Draw(t, "score"))
+		}
 		if rapid.IntRange(0, 14).Draw(t, "zero trials") == 7 {
 			c.Trials = 0 // nothing at all is to be run
 		}
@@ -274,6 +283,17 @@ func (r *protoRecorder) EpochEvaluated(trial *experiment.Trial, epoch *experimen
 	}
 }
 
+// statelessObserver is an observer without fields, used by value: it forwards to the recorder of the case under check.
+type statelessObserver struct{}
+
+var statelessSink *protoRecorder
+
+func (statelessObserver) TrialRunStarted(t *experiment.Trial)  { statelessSink.TrialRunStarted(t) }
+func (statelessObserver) TrialRunFinished(t *experiment.Trial) { statelessSink.TrialRunFinished(t) }
+func (statelessObserver) EpochEvaluated(t *experiment.Trial, g *experiment.Generation) {
+	statelessSink.EpochEvaluated(t, g)
+}
+
 // expectedTrace is the protocol model: the calls an undisturbed run makes; with a fault, the calls up to the fault.
 func expectedTrace(c C20Case) (trace []protoEvent, complete bool) {
 	for t := 0; t < c.Trials; t++ {
@@ -347,6 +367,15 @@ func CheckC20(c C20Case, rec *Rec) error {
 	var observer experiment.TrialRunObserver
 	if c.Observer {
 		observer = r
+		if c.ObserverByValue {
+			statelessSink = r
+			observer = statelessObserver{}
+			rec.Class("observer handed over by value (field-less struct)")
+		}
+	}
+	if c.MaxFitnessScore > 0 {
+		exp.MaxFitnessScore = c.MaxFitnessScore
+		rec.Class("experiment with a maximal fitness score")
 	}
 	seedLibrary(c.Seed)
 	if c.Prior {
